@@ -201,6 +201,13 @@ func main() {
 	} {
 		ls = append(ls, listed{t, false, "regression"})
 	}
+	// pairs whose texts differ only in layout, the first well-formed and the second not
+	// (a line break ends a // comment; an exotic space is not white space), compiled
+	// one after the other on the same compiler
+	for _, t := range []string{"RETURN 1 // done )", "RETURN 1 // done\n)", "RETURN 1 // c RETURN 2", "RETURN 1 // c\nRETURN 2", "RETURN 1", "RETURN 1\u2003", "RETURN\u00a01",
+		"RETURN 1 /* a */", "RETURN 1 /* a\n*/ )", "RETURN [1, 2] // ]\n", "RETURN [1, 2 // ]\n", "LET a = 1 // x\nRETURN a", "LET a = 1 // x RETURN a"} {
+		ls = append(ls, listed{t, false, "layout-pairs"})
+	}
 	for _, t := range []string{
 		"RETURN @count", "RETURN @filter + @limit", "LET count = 1 RETURN count", "LET options = 1 LET timeout = 2 RETURN options + timeout",
 		"RETURN {filter: 1, sort: 2, return: 3, for: 4, in: 5, not: 6, true: 7, none: 8}", "LET x = {all: 1, any: 2} RETURN x.all + x.any",
